@@ -110,7 +110,7 @@ theorem spec_lazy_eq_twin (cfg : Cfg) (p : Prog) (hl : p.lazy = true)
   | contractOn e q f => simp [spec, Prog.twin, specSrc, overrideHead_none]
   | sharedReady r => simp [spec, Prog.twin, specSrc, overrideHead_none]
   | sharedContract q f => simp [spec, Prog.twin, specSrc, overrideHead_none]
-  | sharedKept q f pre => simp [spec, Prog.twin, specSrc, overrideHead_none]
+  | sharedKept e q f pre => simp [spec, Prog.twin, specSrc, overrideHead_none]
 
 /-! ### cancel -/
 
